@@ -287,7 +287,7 @@ func (p Prop[C]) account(c C, r *R, st *subStats) {
 	for _, k := range r.excluded {
 		st.Excluded[k]++
 	}
-	if r.nontrivial && len(r.excluded) == 0 {
+	if r.nontrivial {
 		h, _ := caseHash(p.Sub, c)
 		if _, ok := hashes[h]; !ok {
 			hashes[h] = struct{}{}
